@@ -59,6 +59,30 @@ class Ctx:
         """the crates a rule over 'the guard code' must cover: the library and the CLI binary's own copy"""
         return [self.lib, self.bin]
 
+    def fixture(self, name="poscontrol"):
+        if name not in self._others:
+            self._others[name] = facts.load(name + "-lib", facts.extract_fixture(name))
+        return self._others[name]
+
+    def positive_control(self, rule, what, run, expect):
+        """run(sub_ctx, fixture_crate) applies a rule to the positive-control fixture; every substring in `expect` must occur in the key
+        or detail of some obligation the rule FAILS there.  Recorded as one obligation of `rule`: a rule that no longer sees the
+        construct it exists for fails here instead of passing vacuously on the repository."""
+        sub = Ctx.__new__(Ctx)
+        sub.__dict__.update(self.__dict__)
+        sub.obs = []
+        sub.analysed = {}
+        sub.assumptions = []
+        try:
+            run(sub, self.fixture())
+            failed = ["%s %s" % (o.key, o.detail) for o in sub.obs if not o.ok]
+            missing = [e for e in expect if not any(e in x for x in failed)]
+            self.ob(rule, "%s:positive-control:%s" % (rule, what), not missing,
+                    ("the rule does not report %s in the fixture /verif/fixtures/poscontrol (it reported: %s)" % (missing, [x[:60] for x in failed][:4])) if missing
+                    else "reports all %d planted constructs of the fixture (%s)" % (len(expect), ", ".join(expect)), file="/verif/fixtures/poscontrol/src/lib.rs")
+        except Exception as e:                                  # a crash of the rule on the fixture is a failed control, not a checker error
+            self.ob(rule, "%s:positive-control:%s" % (rule, what), False, "the rule crashed on the fixture: %r" % (e,), file="/verif/fixtures/poscontrol/src/lib.rs")
+
     def ob(self, rule, key, ok, detail="", fn=None, line=0, file="", sample=None):
         if fn is not None:
             file = file or fn.get("file", "")
